@@ -1,6 +1,8 @@
 (* C12 -- Confidence bands follow their definitions, bracket the winner, only add bands.
    Statements only; proofs are `exact <lemma>` from Proofs/ConfidenceP.v.
-   Model: Model/Confidence.v (tied to the code by the correspondence check harness/props/c12.py);
+   Model: Model/Confidence.v (tied to the code by the correspondence check harness/props/c12.py and, for the four
+   numba kernels and normalize_with_percentile, by T-gen: Gen/ConfKernels.v regenerated from the Python source at
+   every run and proved equal to the model: second half of this file, theorems C12_gen_...);
    Spec : Spec/Confidence.v.  Costs are [option Q] (None = NaN); the eta samples, the threshold,
    the disparity axis, the percentile are arbitrary data: every statement is for ALL of them,
    all curve lengths, all volumes. *)
@@ -8,6 +10,7 @@ From Coq Require Import String Ascii.
 From Coq Require Import ZArith QArith Qabs List Bool.
 From Pandora Require Import Lib.Ext Model.Confidence Spec.Confidence Proofs.ConfidenceP.
 From Pandora Require Import Model.Wta Model.ConfPipeline Proofs.StdP Proofs.ConfidenceRegP Proofs.ConfPipelineP.
+From Pandora Require Import Lib.NpVec Model.ConfGen Proofs.ConfGenP.
 Import ListNotations.
 Open Scope Z_scope.
 
@@ -331,6 +334,152 @@ Example C12_example_builtin_pipeline :
      | None => False end.
 Proof. split; vm_compute; reflexivity. Qed.
 
+(* ================================================================================================
+   T-gen: the numba kernels regenerated from the Python source (Gen/ConfKernels.v, written at every run by
+   translator/gen_conf_kernels.py from ambiguity.py / risk.py / interval_bounds.py; numpy semantics of
+   Lib/NpVec.v; glue Model/ConfGen.v).  G.<kernel>_pixel is the body of the (row, col) loop nest,
+   G.<kernel> the whole kernel (prelude, then the body on every pixel).  The theorems below are the
+   per-run obligations "what the code says now computes what the model computes, for ALL inputs, and no
+   numpy operation of the body fails (shapes, indices)", then the headline theorems restated on the
+   generated definitions.  [xeq] is equality of floats up to the representation of the rational.
+   The eta samples are data (any list); np.argsort is any function returning the indices of its argument
+   (argsort_ok; satisfiable: C12_gen_argsort_contract_satisfiable). *)
+
+(* compute_ambiguity, pixel body = amb_pixel *)
+Theorem C12_gen_amb_pixel_eq : forall mn mx etas c, ~ (mn == mx)%Q ->
+  exists r, gamb_pixel mn mx etas c = Some r /\ xeq r (xofz (amb_pixel mn mx etas c)).
+Proof. exact gen_amb_pixel_eq. Qed.
+
+(* compute_ambiguity_and_sampled_ambiguity, pixel body = (amb_pixel, per eta the number of costs within eta) *)
+Theorem C12_gen_samp_pixel_eq : forall mn mx etas c, ~ (mn == mx)%Q ->
+  exists r, gsamp_pixel mn mx etas c = Some (r, v_ofz (samp_pixel mn mx etas c))
+            /\ xeq r (xofz (amb_pixel mn mx etas c)).
+Proof. exact gen_samp_pixel_eq. Qed.
+
+(* compute_risk fed by the generated sampled ambiguity, pixel body = risk_pixel *)
+Theorem C12_gen_risk_pixel_eq : forall mn mx etas c, ~ (mn == mx)%Q ->
+  exists a b, grisk_pixel mn mx etas c = Some (a, b)
+              /\ xeq a (of_oq (fst (risk_pixel mn mx etas c))) /\ xeq b (of_oq (snd (risk_pixel mn mx etas c))).
+Proof. exact gen_risk_pixel_eq. Qed.
+
+(* compute_interval_bounds, pixel body = bounds_pixel, whatever permutation argsort returns *)
+Theorem C12_gen_bounds_pixel_eq : forall argsort mn mx tf thr disps c, argsort_ok argsort -> ~ (mn == mx)%Q ->
+  length disps = length c ->
+  gbounds_pixel argsort mn mx tf thr disps c
+  = Some (of_oq (fst (bounds_pixel mn mx tf thr disps c)), of_oq (snd (bounds_pixel mn mx tf thr disps c))).
+Proof. exact gen_bounds_pixel_eq. Qed.
+
+(* the prelude variable two_dim_etas (np.repeat(etas, nb_disps).reshape((-1, nb_disps)).T.flatten()) is the
+   eta samples tiled nb_disps times, the value the pixel theorems above give it *)
+Theorem C12_gen_two_dim_etas : forall etas nd, (0 < nd)%nat ->
+  exists m, v_reshape_m1 (np_repeat (xetas etas) (Z.of_nat nd)) (Z.of_nat nd) = Some m
+            /\ m_flatten (m_T m) = two_dim nd etas.
+Proof. exact gen_two_dim_etas. Qed.
+
+(* the whole kernels (prelude: np.nanmin / np.nanmax of the volume, cv.shape, two_dim_etas, result arrays; then
+   the loop nest) on EVERY volume with nd >= 1 disparities (and at least one pixel, from which cv.shape is read):
+   the property's domain (two distinct finite costs) and the degenerate volumes (no finite cost, or all finite
+   costs equal: 0/0 everywhere) alike *)
+Theorem C12_gen_amb_kernel_eq : forall (v : volume) nd, vol_shape nd v -> forall etas, (0 < nd)%nat ->
+  exists m, G.compute_ambiguity (xvolume v) (xetas etas) = Some m
+            /\ Forall2 (Forall2 xeq) m (map (map xofz) (amb_map etas v)).
+Proof. exact gen_amb_map_eq_all. Qed.
+
+Theorem C12_gen_risk_kernel_eq : forall (v : volume) nd, vol_shape nd v -> forall etas, (0 < nd)%nat ->
+  exists m, grisk_map v etas = Some m /\ Forall2 (Forall2 xeq2) m (map (map xpair) (risk_map etas v)).
+Proof. exact gen_risk_map_eq_all. Qed.
+
+Theorem C12_gen_bounds_kernel_eq : forall (v : volume) nd, vol_shape nd v ->
+  forall argsort tf thr disps, argsort_ok argsort -> length disps = nd ->
+  G.compute_interval_bounds argsort (xvolume v) (xetas disps) (XFin thr) (XFin tf)
+  = Some (map (map xpair) (bounds_map tf thr disps v)).
+Proof. exact gen_bounds_map_eq_all. Qed.
+
+(* normalize_with_percentile (plain numpy on the whole map, translated the same way; np.percentile is any function
+   that interpolates linearly between the order statistics, percentile_ok, satisfiable: C12_gen_percentile_contract_satisfiable):
+   generated = normalize_percentile of the model WITH the zero-range guard, for every non-empty ambiguity map *)
+Theorem C12_gen_normalize_eq : forall pctl p (amb : list (list Q)), percentile_ok pctl -> concat amb <> [] ->
+  exists r, G.normalize_with_percentile pctl (XFin p) (map (map XFin) amb) = Some r
+            /\ Forall2 (Forall2 xeq) r (map (map of_oq) (normalize_percentile true p amb)).
+Proof. exact gen_normalize_eq. Qed.
+
+(* C12_ambiguity_normalised_in_01 on the generated normalisation: finite values of [0, 1] for EVERY non-empty map
+   (the D12 witness included: a constant map is sent to 0) *)
+Theorem C12_gen_normalised_in_01 : forall pctl p (amb : list (list Q)), percentile_ok pctl -> concat amb <> [] ->
+  exists r, G.normalize_with_percentile pctl (XFin p) (map (map XFin) amb) = Some r /\
+    forall row y, In row r -> In y row -> exists q, y = XFin q /\ (0 <= q <= 1)%Q.
+Proof. exact gen_normalize_in01. Qed.
+
+Theorem C12_gen_percentile_contract_satisfiable : percentile_ok pctl_lin.
+Proof. exact pctl_lin_ok. Qed.
+
+(* ---- the headline theorems on the generated kernels *)
+
+(* C12_ambiguity_def: the generated pixel body returns the count formula *)
+Theorem C12_gen_ambiguity_def : forall mn mx etas c, ~ (mn == mx)%Q ->
+  exists r, gamb_pixel mn mx etas c = Some (XFin r) /\
+    match nanmin c with
+    | Some m => is_best_min c m /\ (r == inject_Z (spec_amb (norm mn mx m) etas (ncurve mn mx c)))%Q
+    | None => (forall x, ~ In (Some x) c) /\ (r == inject_Z (Z.of_nat (length etas) * Z.of_nat (length c)))%Q
+    end.
+Proof. exact gen_ambiguity_def. Qed.
+
+(* C12_risk_order: 0 <= risk_min <= risk_max on the generated kernels (both NaN only together) *)
+Theorem C12_gen_risk_order : forall mn mx etas c, ~ (mn == mx)%Q ->
+  exists a b, grisk_pixel mn mx etas c = Some (a, b) /\
+    match a, b with
+    | XFin rmax, XFin rmin => (0 <= rmin /\ rmin <= rmax)%Q
+    | XNaN, XNaN => True
+    | _, _ => False
+    end.
+Proof. exact gen_risk_order. Qed.
+
+Theorem C12_gen_risk_finite : forall mn mx etas c x, ~ (mn == mx)%Q ->
+  In (Some x) c -> etas <> [] -> Forall (fun e => 0 <= e)%Q etas ->
+  exists rmax rmin, grisk_pixel mn mx etas c = Some (XFin rmax, XFin rmin).
+Proof. exact gen_risk_finite. Qed.
+
+(* C12_bounds_bracket_wta: inf <= winner-takes-all disparity <= sup on the generated kernel *)
+Theorem C12_gen_bounds_bracket_wta : forall argsort mn mx is_min thr disps c w, argsort_ok argsort ->
+  (mn < mx)%Q -> (thr <= 1)%Q -> length disps = length c -> increasing disps ->
+  wta is_min c = Some w ->
+  exists dinf dw dsup,
+    gbounds_pixel argsort mn mx (type_factor is_min) thr disps c = Some (XFin dinf, XFin dsup)
+    /\ znth_error disps w = Some dw /\ (dinf <= dw)%Q /\ (dw <= dsup)%Q.
+Proof. exact gen_bounds_bracket_wta. Qed.
+
+Theorem C12_gen_argsort_contract_satisfiable : argsort_ok argsort_id /\ argsort_ok argsort_rev.
+Proof. split; [exact argsort_id_ok|exact argsort_rev_ok]. Qed.
+
+(* Non-vacuity / sanity: the generated kernels run on the example curve of C12_example_hyps (NaN hole, tie) and on
+   a 1 x 2 volume give the values of the model; the reversed permutation gives the same bounds *)
+Example C12_example_gen :
+  gamb_pixel 1 5 [0%Q; (1#2)%Q] ex_curve = Some (XFin (0 + inject_Z 7))
+  /\ match gsamp_pixel 1 5 [0%Q; (1#2)%Q] ex_curve with Some (_, s) => s = v_ofz [3; 4] | None => False end
+  /\ match grisk_pixel 1 5 [0%Q; (1#2)%Q] ex_curve with
+     | Some (XFin a, XFin b) => Qred a = (5 # 2)%Q /\ Qred b = 0%Q | _ => False end
+  /\ gbounds_pixel argsort_id 1 5 (type_factor true) (9 # 10) [(-2)%Q; (-1)%Q; 0%Q; 1%Q; 2%Q] ex_curve = Some (XFin (-1), XFin 2)
+  /\ gbounds_pixel argsort_rev 1 5 (type_factor true) (9 # 10) [(-2)%Q; (-1)%Q; 0%Q; 1%Q; 2%Q] ex_curve = Some (XFin (-1), XFin 2)
+  /\ match G.compute_interval_bounds argsort_rev (xvolume [[ex_curve; [Some 2%Q; Some 4%Q; None; None; Some 4%Q]]])
+             (xetas [(-2)%Q; (-1)%Q; 0%Q; 1%Q; 2%Q]) (XFin (9 # 10)) (XFin (-1)) with
+     | Some [[(XFin a, XFin b); (XFin a', XFin b')]] => (a, b, a', b') = ((-1)%Q, 2%Q, (-2)%Q, (-1)%Q) | _ => False end.
+Proof.
+  vm_compute.
+  repeat split.
+Qed.
+
+(* the generated normalisation on the D12 witness (constant map: 0 everywhere, not NaN) and on a 1 x 3 map *)
+Example C12_example_gen_normalize :
+  match G.normalize_with_percentile pctl_lin (XFin 1) [[XFin 6]] with Some [[XFin a]] => Qred a = 0%Q | _ => False end
+  /\ match G.normalize_with_percentile pctl_lin (XFin 50) [[XFin 2; XFin 6; XFin 4]] with
+     | Some [[XFin a; XFin b; XFin c]] => True | _ => False end
+  /\ match G.normalize_with_percentile pctl_lin (XFin 0) [[XFin 2; XFin 6; XFin 4]] with
+     | Some [[XFin a; XFin b; XFin c]] => (Qred a, Qred b, Qred c) = (0%Q, 1%Q, (1 # 2)%Q) | _ => False end.
+Proof.
+  vm_compute.
+  repeat split.
+Qed.
+
 Print Assumptions C12_bands_append_only.
 Print Assumptions C12_suffix_rule.
 Print Assumptions C12_confidence_steps_transparent.
@@ -358,3 +507,19 @@ Print Assumptions C12_builtin_steps_ignore_bands.
 Print Assumptions C12_confidence_transparent_builtin.
 Print Assumptions C12_confidence_transparent_builtin_run.
 Print Assumptions C12_raised_is_final.
+Print Assumptions C12_gen_amb_pixel_eq.
+Print Assumptions C12_gen_samp_pixel_eq.
+Print Assumptions C12_gen_risk_pixel_eq.
+Print Assumptions C12_gen_bounds_pixel_eq.
+Print Assumptions C12_gen_two_dim_etas.
+Print Assumptions C12_gen_amb_kernel_eq.
+Print Assumptions C12_gen_risk_kernel_eq.
+Print Assumptions C12_gen_bounds_kernel_eq.
+Print Assumptions C12_gen_ambiguity_def.
+Print Assumptions C12_gen_risk_order.
+Print Assumptions C12_gen_risk_finite.
+Print Assumptions C12_gen_bounds_bracket_wta.
+Print Assumptions C12_gen_argsort_contract_satisfiable.
+Print Assumptions C12_gen_normalize_eq.
+Print Assumptions C12_gen_normalised_in_01.
+Print Assumptions C12_gen_percentile_contract_satisfiable.
